@@ -12,7 +12,7 @@ from typing import Dict, Optional, Set
 
 from ..core import Ctx
 from ..model import body_stmts, canon, norm, walk_no_nested
-from .common import prog, quant_norm
+from .common import expand_locals, prog, quant_norm
 
 SPECS: Dict[str, Set[str]] = {
     "Continuum.num_units": {"sum((len(units) for units in self._annotations.values()))"},
@@ -34,10 +34,36 @@ GENERATORS = ("Continuum.__iter__", "Continuum.iter_annotator")
 
 
 def _single_return(f) -> Optional[ast.AST]:
+    """the accessor as one return statement: its body when it is one, or the early-exit search loop
+    `for T in IT: if C: return <bool>` + `return <other bool>` read as `[not] any(C for T in IT)`"""
     b = body_stmts(f.node)
     if len(b) == 1 and isinstance(b[0], ast.Return) and b[0].value is not None:
         return b[0]
+    if len(b) == 2 and isinstance(b[0], ast.For) and not b[0].orelse and len(b[0].body) == 1 and isinstance(b[0].body[0], ast.If) and not b[0].body[0].orelse \
+            and len(b[0].body[0].body) == 1 and isinstance(b[0].body[0].body[0], ast.Return) and isinstance(b[1], ast.Return):
+        inner, outer = b[0].body[0].body[0].value, b[1].value
+        if isinstance(inner, ast.Constant) and isinstance(outer, ast.Constant) and isinstance(inner.value, bool) and isinstance(outer.value, bool) and inner.value != outer.value:
+            q = ast.Call(func=ast.Name(id="any", ctx=ast.Load()), keywords=[],
+                         args=[ast.GeneratorExp(elt=b[0].body[0].test, generators=[ast.comprehension(target=b[0].target, iter=b[0].iter, ifs=[], is_async=0)])])
+            v = q if inner.value else ast.UnaryOp(op=ast.Not(), operand=q)
+            r = ast.Return(value=v)
+            ast.copy_location(r, b[0])
+            ast.fix_missing_locations(r)
+            return r
     return None
+
+
+def _map_as_generator(v: ast.AST) -> ast.AST:
+    """`map(f, X)` (f a plain name) is the generator `(f(e) for e in X)`"""
+    class T(ast.NodeTransformer):
+        def visit_Call(self, n):
+            self.generic_visit(n)
+            if isinstance(n.func, ast.Name) and n.func.id == "map" and len(n.args) == 2 and not n.keywords and isinstance(n.args[0], ast.Name):
+                e = ast.Name(id="e__", ctx=ast.Load())
+                return ast.GeneratorExp(elt=ast.Call(func=n.args[0], args=[e], keywords=[]),
+                                        generators=[ast.comprehension(target=ast.Name(id="e__", ctx=ast.Store()), iter=n.args[1], ifs=[], is_async=0)])
+            return n
+    return ast.fix_missing_locations(T().visit(_c.deepcopy(v)))
 
 
 def check_accessor(ctx: Ctx, qn: str, rule: str = "R-SUP") -> None:
@@ -72,7 +98,7 @@ def check_accessor(ctx: Ctx, qn: str, rule: str = "R-SUP") -> None:
     r = _single_return(f)
     got = None
     if r is not None:
-        v = r.value
+        v = _map_as_generator(expand_locals(f.node, r.value))
         if isinstance(v, ast.Call) and v.args and isinstance(v.args[0], ast.ListComp):      # sum([...]) and sum((...)) are the same aggregate
             v = _c.deepcopy(v)
             v.args[0] = ast.GeneratorExp(elt=v.args[0].elt, generators=v.args[0].generators)
